@@ -10,6 +10,7 @@ namespace tbfsim {
 Scenario generate(const std::string& prop, uint64_t seed, const std::string& tier, bool plainFlavour);
 void applySchedule(Scenario& sc, int sub, bool plainFlavour);
 int schedulesPer(const std::string& prop, const std::string& tier);
+int nbStagings();
 
 // one simulated run; returns the result record (see main.cpp for the line protocol)
 Json runScenario(const Scenario& sc);
